@@ -252,6 +252,14 @@ def same_lab_dump(storage_dir: str, kind: str, n: int, k: int):
         except BaseException as e:  # noqa
             out['load_error'] = f'{type(e).__name__}: {e}'
             out['loaded'] = False
+    # a later run with the very same task object (it has been through two runs and still carries what
+    # they left on it): it loads a complete value or is executed again - it does not fail
+    try:
+        r4 = lab.run_tasks([t], disable_progress=True, disable_top=True)
+        out['same_object_ok'] = t in r4 and r4[t][4] in (1, 2, 3) and r4[t][:4] == r1[t][:4] and r4[t][5] == A._result_payload(kind, n, r4[t][4])
+    except BaseException as e:  # noqa
+        out['same_object_error'] = f'{type(e).__name__}: {e}'
+        out['same_object_ok'] = False
     print(json.dumps(out))
 
 
@@ -279,6 +287,8 @@ def same_lab_case(args):
                                                                          f'but loading fails {o.get("load_error", "")}'))
             elif o.get('epoch_loaded') not in (1, 2):
                 res.append(('reported-cached-but-executed:overwrite', f'{d}: reported as cached but the value was recomputed'))
+        if not o.get('same_object_ok'):
+            res.append(('later-run-with-same-task-object-fails:overwrite', f'{d}: running the same task object once more afterwards fails or gives a wrong value {o.get("same_object_error", "")}'))
         return res, not o['second_returned']
     finally:
         shutil.rmtree(tmp, ignore_errors=True)
